@@ -419,26 +419,28 @@ RoundTripA ==
     /\ UNCHANGED <<st, msk, nsid, nid, mpks, usk, users, nuid, encs, lnk, idu, g, bad>>
 
 Past == pc > Len(Script) /\ pc' = pc
+ObsUpd == obs' = ObsOf(usk', encs')
 Free ==
-    \/ \E d \in Dims : Past /\ AddDimA(d)
-    \/ \E d \in Dims : Past /\ DelDimA(d)
+    \/ \E d \in Dims : Past /\ AddDimA(d) /\ ObsUpd
+    \/ \E d \in Dims : Past /\ DelDimA(d) /\ ObsUpd
     \/ \E d \in Dims, n \in Names, h \in Hints, after \in Names \cup {""} :
           /\ Past
           /\ LiveCount(st) < MaxAttrs /\ g.nextUid <= MaxUid
           /\ (after # "" => d \in DOMAIN st /\ st[d].kind = "H")
           /\ AddAttrA(d, n, h, after)
-    \/ \E d \in Dims, n \in Names : Past /\ DelAttrA(d, n)
-    \/ \E d \in Dims, n \in Names : Past /\ DisableA(d, n)
-    \/ \E d \in Dims, n \in Names, to \in Names : Past /\ RenameA(d, n, to)
-    \/ Past /\ UpdateA
-    \/ \E p \in Pols : Past /\ RekeyA(p)
-    \/ \E p \in Pols : Past /\ PruneA(p)
-    \/ \E u \in Users, p \in Pols : Past /\ KeyGenA(u, p)
-    \/ \E u \in Users, keep \in BOOLEAN : Past /\ RefreshA(u, keep)
-    \/ \E u \in Users, f \in Users : Past /\ CloneA(u, f)
-    \/ \E e \in EncIds, k \in 1..MaxMpk, p \in Pols : Past /\ EncapsA(e, k, p)
-    \/ \E e2 \in EncIds, e \in EncIds, k \in 1..MaxMpk : Past /\ RecapsA(e2, k, e)
-    \/ Past /\ RoundTripA
+          /\ ObsUpd
+    \/ \E d \in Dims, n \in Names : Past /\ DelAttrA(d, n) /\ ObsUpd
+    \/ \E d \in Dims, n \in Names : Past /\ DisableA(d, n) /\ ObsUpd
+    \/ \E d \in Dims, n \in Names, to \in Names : Past /\ RenameA(d, n, to) /\ ObsUpd
+    \/ Past /\ UpdateA /\ ObsUpd
+    \/ \E p \in Pols : Past /\ RekeyA(p) /\ ObsUpd
+    \/ \E p \in Pols : Past /\ PruneA(p) /\ ObsUpd
+    \/ \E u \in Users, p \in Pols : Past /\ KeyGenA(u, p) /\ ObsUpd
+    \/ \E u \in Users, keep \in BOOLEAN : Past /\ RefreshA(u, keep) /\ ObsUpd
+    \/ \E u \in Users, f \in Users : Past /\ CloneA(u, f) /\ ObsUpd
+    \/ \E e \in EncIds, k \in 1..MaxMpk, p \in Pols : Past /\ EncapsA(e, k, p) /\ ObsUpd
+    \/ \E e2 \in EncIds, e \in EncIds, k \in 1..MaxMpk : Past /\ RecapsA(e2, k, e) /\ ObsUpd
+    \/ Past /\ RoundTripA /\ ObsUpd
 
 Scripted(a) ==
     CASE a.op = "add_dim" -> AddDimA(a.d)
@@ -453,8 +455,8 @@ Scripted(a) ==
       [] a.op = "refresh" -> RefreshA(a.u, a.keep)
       [] a.op = "encaps" -> EncapsA(a.e, a.mpk, a.pol)
 
-ScriptStep == pc <= Len(Script) /\ Scripted(Script[pc]) /\ pc' = pc + 1
-Next == (ScriptStep \/ Free) /\ obs' = ObsOf(usk', encs')
+ScriptStep == pc <= Len(Script) /\ Scripted(Script[pc]) /\ pc' = pc + 1 /\ ObsUpd
+Next == ScriptStep \/ Free
 
 Spec == Init /\ [][Next]_vars
 
